@@ -1,6 +1,6 @@
 (* Consequences of the per-connection invariant in the form pinned under coq/props. *)
 From ZV Require Import Server.Server Server.ServerLists Server.ServerStruct Server.ServerSpec
-  Server.ServerInv Server.ServerPairs.
+  Server.ServerInv Server.ServerPairs Server.RoundRobin Server.ServerRR.
 From Coq Require Import Lia.
 
 Section Thms.
@@ -100,6 +100,56 @@ Theorem undecodable_never_reaches_service (s : sv P) cs idx st s' t :
 Proof.
   intros H. unfold on_call in H.
   destruct (nth_error cs idx); inversion H; subst; split; reflexivity.
+Qed.
+
+(* C10: open reply streams never delay the call branch.  Whatever is parked in the stream list and
+   whatever is queued for the streams: when nothing waits at the listener and some connection in the
+   call list has a complete call available, this very iteration is a get_next_call iteration — it
+   yields an index i, handles that connection's call and records i as the last winner; no stream is
+   polled.  (Which connection: the round-robin order, C18: a ready connection b is chosen after fewer
+   than n other calls.) *)
+Theorem others_served_meanwhile (s : sv P) (b : nat) :
+  accq s = [] -> b < length (conns s) -> ready P (conns s) b = true ->
+  exists i, call_winner P s = Some i /\ i < length (conns s) /\
+    forall st s' t, iteration P s = (st, s', t) ->
+      st = Progress /\ lastc s' = Some i /\ lasts s' = lasts s /\ squeue s' = squeue s /\
+      forall e, In e t -> match e with TSYield _ _ _ => False | _ => True end.
+Proof.
+  intros Ha Hb Hr.
+  destruct (select_ready_some (lastc s) (length (conns s)) (ready P (conns s)) b Hb Hr) as (w & Hw).
+  exists w. rewrite (call_winner_select P s Ha). split; [exact Hw|].
+  split; [now destruct (select_some _ _ _ _ Hw) as (_ & H & _)|].
+  intros st s' t Hit.
+  pose proof (lastc_iteration P _ _ _ _ Hit) as Hl. rewrite (call_winner_select P s Ha), Hw in Hl.
+  unfold iteration in Hit. rewrite Ha in Hit.
+  assert (Hcw : call_winner P s = Some w) by (now rewrite (call_winner_select P s Ha)).
+  unfold call_winner in Hcw. rewrite Ha in Hcw.
+  destruct (scan_calls P (poll_order (lastc s) (length (conns s))) (conns s)) as [[[i r]|] cs] eqn:Es;
+    cbn [fst] in Hcw; [|discriminate]. inversion Hcw; subst i.
+  assert (Hall : Forall (fun _ : conn => True) (conns s)) by (apply Forall_forall; intros; exact I).
+  destruct (scan_calls_ind P (fun _ => True) (fun _ _ => True) (fun _ _ _ _ => I) (fun _ _ _ _ _ => I)
+              _ _ _ _ Hall Es) as (l1 & x & l2 & -> & <- & _).
+  destruct (on_call_conserve P _ _ _ _ _ _ _ _ Hit) as (-> & _).
+  split; [reflexivity|]. split; [exact Hl|].
+  unfold on_call in Hit. rewrite nth_error_mid in Hit.
+  destruct r as [[cl|]| | |];
+    try solve [inversion Hit; subst; split; [reflexivity|]; split; [reflexivity|];
+               intros e [<-|[]]; exact I].
+  destruct (handle_call P cl x (sst s)) as [[h st'] t'] eqn:Eh.
+  assert (Hny : forall e, In e t' -> match e with TSYield _ _ _ => False | _ => True end).
+  { revert Eh. unfold handle_call, reply_with, write_conn. destruct (handle P cl (sst s)) as [ans s1].
+    destruct (oneway P cl).
+    - intros H; inversion H; subst. intros e [<-|He]; [exact I|].
+      destruct ans; cbn in He; repeat (destruct He as [<-|He]; [exact I|]); contradiction.
+    - destruct ans as [p|e0|].
+      + destruct (existsb (Nat.eqb (wcnt x)) (wfail x)); intros H; inversion H; subst;
+          intros e He; cbn in He; repeat (destruct He as [<-|He]; [exact I|]); contradiction.
+      + destruct (existsb (Nat.eqb (wcnt x)) (wfail x)); intros H; inversion H; subst;
+          intros e He; cbn in He; repeat (destruct He as [<-|He]; [exact I|]); contradiction.
+      + intros H; inversion H; subst. intros e He; cbn in He;
+          repeat (destruct He as [<-|He]; [exact I|]); contradiction. }
+  destruct h; inversion Hit; subst; (split; [reflexivity|]; split; [reflexivity|]); auto.
+  intros e He. apply in_app_iff in He. destruct He as [He|[<-|[]]]; [exact (Hny e He)|exact I].
 Qed.
 
 End Thms.
